@@ -2,8 +2,8 @@
  * table/block_builder.c: VP_N entries (1..3), key i has the concrete length
  * VP_L<i> (1..3) and symbolic bytes (strictly increasing bytewise, so shared
  * prefixes of every possible length occur), value i has VP_VL symbolic bytes,
- * restart interval VP_RI (concrete, 1..3).  Then VP_K symbolic operations
- * among first/last/seek(symbolic target of 0..3 bytes)/next/prev versus the
+ * restart interval VP_RI (concrete, 1..3).  Then VP_K steps (operation of step k
+ * chosen symbolically inside the set VP_OS<k>, C07/ops.h) among first/last/seek(symbolic target of 0..3 bytes)/next/prev versus the
  * sorted-map cursor (C07/ref.h): valid, key bytes, value bytes and status OK
  * after every operation.  VP_MODE 1: full forward and backward scans.
  */
@@ -107,27 +107,27 @@ vp_apply(int op, int mask, const uint8_t *t, size_t tn) {
   /* mask (a constant per step) removes the excluded operations from the
      program, not only from the models */
   if ((mask & (1 << VP_OP_FIRST)) && op == VP_OP_FIRST) {
-      ldb_blockiter_first(vp_bi);
-      vp_cur = vp_ref_first(&vp_ref);
+    ldb_blockiter_first(vp_bi);
+    vp_cur = vp_ref_first(&vp_ref);
   } else if ((mask & (1 << VP_OP_LAST)) && op == VP_OP_LAST) {
-      ldb_blockiter_last(vp_bi);
-      vp_cur = vp_ref_last(&vp_ref);
+    ldb_blockiter_last(vp_bi);
+    vp_cur = vp_ref_last(&vp_ref);
   } else if ((mask & (1 << VP_OP_SEEK)) && op == VP_OP_SEEK) {
-      target.data = (uint8_t *)t;
-      target.size = tn;
-      target.alloc = 0;
-      ldb_blockiter_seek(vp_bi, &target);
-      vp_cur = vp_ref_seek_ge(&vp_ref, t, tn);
+    target.data = (uint8_t *)t;
+    target.size = tn;
+    target.alloc = 0;
+    ldb_blockiter_seek(vp_bi, &target);
+    vp_cur = vp_ref_seek_ge(&vp_ref, t, tn);
   } else if ((mask & (1 << VP_OP_NEXT)) && op == VP_OP_NEXT) {
-      if (vp_cur < 0)
-        return; /* REQUIRES: valid */
-      ldb_blockiter_next(vp_bi);
-      vp_cur = vp_ref_next(&vp_ref, vp_cur);
+    if (vp_cur < 0)
+      return; /* REQUIRES: valid */
+    ldb_blockiter_next(vp_bi);
+    vp_cur = vp_ref_next(&vp_ref, vp_cur);
   } else if ((mask & (1 << VP_OP_PREV)) && op == VP_OP_PREV) {
-      if (vp_cur < 0)
-        return;
-      ldb_blockiter_prev(vp_bi);
-      vp_cur = vp_ref_prev(&vp_ref, vp_cur);
+    if (vp_cur < 0)
+      return;
+    ldb_blockiter_prev(vp_bi);
+    vp_cur = vp_ref_prev(&vp_ref, vp_cur);
   } else {
     return;
   }
